@@ -226,7 +226,12 @@ func (s *shardsDirector) DeleteShard(req *proto.DeleteShardRequest) (*proto.Dele
 	if err != nil {
 		return nil, err
 	}
-	return fc.DeleteShard(req)
+	resp, err := fc.DeleteShard(req)
+	if err != nil {
+		// This controller only existed to serve the request
+		_ = fc.Close()
+	}
+	return resp, err
 }
 
 func (s *shardsDirector) Close() error {
